@@ -313,7 +313,6 @@ func H_C08_generated() {
 	vfAssert(out == "<"+winner+"|"+winner+">", "root body with the most-derived definition at both sites; nothing else reaches the output")
 }
 
-
 // H_C08_emptyContent: an explicitly empty content section is supplied content: inside a
 // block that was itself yielded with content, {{ yield b() content }}{{ end }} (and a block
 // whose default content is empty, at its definition site) makes the inner 'yield content'
@@ -381,4 +380,57 @@ func H_C08_repeatedImport() {
 	}
 	vfNote(out)
 	vfAssert(out == want, "later imports override earlier ones, repetitions included")
+}
+
+// H_C08_nestedDefinition: a block definition that is not at the top level of its file -
+// written inside another block's body, an if or else branch, a range body, a try body or
+// the content of a yield - defines the block all the same: it overrides the layout's
+// definition when its file extends or is imported, and can be yielded by name elsewhere in
+// its own file.
+//
+//gosym:reach rendered
+func H_C08_nestedDefinition() {
+	wrap := ndChoice("wrap", 7)
+	how := ndChoice("how", 3) // 0 the executed page extends the layout, 1 the page imports the definer, 2 one file
+	def := `{{ block b() }}over{{ end }}`
+	// pre/post: the text the wrapper itself renders around the definition site
+	var w, pre, post string
+	switch wrap {
+	case 0:
+		w = def
+	case 1:
+		w, pre, post = `{{ block outer() }}<`+def+`>{{ end }}`, "<", ">"
+	case 2:
+		w = `{{ if true }}` + def + `{{ end }}`
+	case 3:
+		w = `{{ if false }}x{{ else }}` + def + `{{ end }}`
+	case 4:
+		w, pre, post = `{{ range k, v := one }}(`+def+`){{ end }}`, "(", ")"
+	case 5:
+		w = `{{ try }}` + def + `{{ end }}`
+	default:
+		w, pre, post = `{{ yield wr() content }}`+def+`{{ end }}`, "{", "}"
+	}
+	layout := `L{{ block wr() }}{{ "{" }}{{ yield content }}{{ "}" }}{{ end }}{{ block b() }}base{{ end }}|{{ yield b() }}E`
+	var set *Set
+	var want string
+	switch how {
+	case 0:
+		set = hxSet(nil, "/layout.jet", layout, "/page.jet", `{{ extends "/layout.jet" }}`+w)
+		want = "L{}over|overE"
+	case 1:
+		set = hxSet(nil, "/layout.jet", layout, "/lib.jet", `{{ import "/layout.jet" }}`+w,
+			"/page.jet", `{{ extends "/layout.jet" }}{{ import "/lib.jet" }}`)
+		want = "L{}over|overE"
+	default:
+		set = hxSet(nil, "/page.jet", `{{ block wr() }}{{ "{" }}{{ yield content }}{{ "}" }}{{ end }}`+w+`|{{ yield b() }}`)
+		want = "{}" + pre + "over" + post + "|over"
+	}
+	vars := make(VarMap)
+	vars.Set("one", []int{1})
+	out, err := hxExec(set, "/page.jet", vars, nil)
+	vfReach("rendered")
+	vfAssert(err == nil, "renders")
+	vfNote(out)
+	vfAssert(out == want, "a nested block definition defines (and overrides) like a top-level one")
 }
